@@ -100,3 +100,24 @@ VARIANTS += [
     dict(prop="C14", name="benign-write-early-return", benign=True,
          edits=[dict(file=OSF, find="        if self.buf.can_read() {\n            Self::wake(&mut self.stream_ready);\n        }\n\n        Poll::Ready(())", replace="        if !self.buf.can_read() {\n            return Poll::Ready(());\n        }\n        Self::wake(&mut self.stream_ready);\n        Poll::Ready(())")]),
 ]
+
+SJ = "ipa-core/src/seq_join/local.rs"
+VARIANTS += [
+    # ---------------- C15 ----------------
+    dict(prop="C15", name="pop-back", expect="WHO-queue|pop_back",
+         edits=[dict(file=SJ, find="let v = this.active.pop_front().map(ActiveItem::take);", replace="let v = this.active.pop_back().map(ActiveItem::take);")]),
+    dict(prop="C15", name="push-front", expect="WHO-queue|push_front",
+         edits=[dict(file=SJ, find="                    .push_back(ActiveItem::Pending(Box::pin(f.into_future())));", replace="                    .push_front(ActiveItem::Pending(Box::pin(f.into_future())));")]),
+    dict(prop="C15", name="skip-two", expect="PAIR-poll|skip-one",
+         edits=[dict(file=SJ, find="for f in this.active.iter_mut().skip(1) {", replace="for f in this.active.iter_mut().skip(2) {")]),
+    dict(prop="C15", name="no-poll-others", expect="PAIR-poll|others-polled-before-pending",
+         edits=[dict(file=SJ, find="                for f in this.active.iter_mut().skip(1) {\n                    f.check_ready(cx);\n                }\n", replace="")]),
+    dict(prop="C15", name="refill-le", expect="LOOP-refill|condition",
+         edits=[dict(file=SJ, find="while this.active.len() < this.active.capacity() {", replace="while this.active.len() + 1 < this.active.capacity() {")]),
+    dict(prop="C15", name="pop-when-not-ready", expect="GUARD-pop",
+         edits=[dict(file=SJ, find="            if item.check_ready(cx) {\n                let v", replace="            if !item.check_ready(cx) {\n                let v")]),
+    dict(prop="C15", name="validate-wrong-index", expect="CHAIN|validates-own-index",
+         edits=[dict(file="ipa-core/src/protocol/context/dzkp_validator.rs", find="                    ctx.validate_record(RecordId::from(index)).await?;", replace="                    ctx.validate_record(RecordId::FIRST).await?;")]),
+    dict(prop="C15", name="benign-front-match", benign=True,
+         edits=[dict(file=SJ, find="        } else if this.source.is_done() {\n            periodic_memory_report(*this.spawned);\n            Poll::Ready(None)\n        } else {\n            Poll::Pending\n        }", replace="        } else if !this.source.is_done() {\n            Poll::Pending\n        } else {\n            periodic_memory_report(*this.spawned);\n            Poll::Ready(None)\n        }")]),
+]
